@@ -22,11 +22,11 @@ def put(pid, prelude_add, items, head=None, tail=""):
             mods.append(x)
     imp = "From FV Require Import " + " ".join(mods) + ".\n"
     src = src[:m.start()] + imp + src[m.end():]
-    body = pins(imp, items)
+    body = re.sub(r"\bsms\b", "same_mod_stop", pins(imp, items))
     open(path, "w").write(src + "\n" + MARK + "\n" + body + tail)
 
 SF = "Parser.StreamFinal"
-which = sys.argv[1:] or ["C02", "C03", "C04", "C05", "C07", "C08", "C09", "C10", "C11", "C12", "C18"]
+which = sys.argv[1:] or ["C02", "C03", "C04", "C05", "C07", "C08", "C09", "C10", "C11", "C12", "C14", "C18"]
 
 if "C02" in which:
     put("C02", "Parser.ReqWire Parser.ReqTargets " + SF, [
@@ -203,7 +203,7 @@ Proof. exact handler_sees_request_instance. Qed.
 ''')
 
 if "C12" in which:
-    put("C12", "Codec.Varint Codec.NV Codec.Vars Parser.ReqWire Parser.ReqTargets Parser.AbsStream Parser.StreamSpec Parser.StreamRefine Parser.StreamInv Async.ConnReads Async.LoopTargets Async.LoopProofs", [
+    put("C12", "Codec.Varint Codec.NV Codec.Vars Parser.ReqWire Parser.ReqTargets Parser.AbsStream Parser.StreamSpec Parser.StreamRefine Parser.StreamInv Async.ConnReads Async.LoopTargets Async.LoopProofs Async.LoopTargets2 Async.LoopProofs2", [
         ("'no handler is invoked for a request whose preamble did not arrive completely': if everything the client will ever deliver "
          "(leftover included) is a PROPER prefix of a well-formed preamble — EOF, a transport error or a block anywhere inside it — "
          "parse_request never hands over to a handler, whatever the read and write patterns", "no_handler_for_partial", "C12_no_handler_for_partial_preamble", ["no_handler_for_partial_stmt"]),
@@ -213,4 +213,22 @@ if "C12" in which:
          "happens only at the stream's end (terminator seen), never because the transport ran dry", "poll_input_zero_is_eof", "C12_empty_read_means_end_of_stream"),
         ("the full account of one poll (error cases: UnexpectedEof only with no client byte left or a full buffer; the transport's "
          "own error; a sticky parser error)", "poll_input_reads", "C12_poll_input_cases"),
+        ("'for a handler that propagates I/O errors, nothing is written after a failed write': for EVERY connection (any client "
+         "bytes, read script, buffer, number of requests) whose handlers propagate errors (every read is `read(..).await?`, writes "
+         "return their error), if the first fault of the write script (a zero-length write or a write error) is entry number |pre|, "
+         "then either that entry is never reached or it is the LAST write call the task ever makes: the rest of the script is "
+         "untouched, so no byte is accepted after the failed call", "nothing_after_failed_write", "C12_nothing_after_failed_write",
+         ["nothing_after_failed_write_stmt"]),
+    ])
+
+if "C14" in which:
+    put("C14", "", [
+        ("'in-flight requests complete': nothing inside a request looks at the stop listener - a handler run that completes without a "
+         "shutdown request completes in exactly the same way (same result, same request state, same bytes read and written, same "
+         "observations) whenever and however often shutdown is requested meanwhile", "handler_ignores_stop", "C14_inflight_handler_completes",
+         ["handler_ignores_stop_stmt"]),
+        ("... and Request::close writes the same complete epilogue and takes the same reuse decision", "close_ignores_stop", "C14_inflight_close_completes",
+         ["close_ignores_stop_stmt"]),
+        ("a request blocked on its client is not aborted by the shutdown either: it keeps waiting", "handler_block", "C14_blocked_request_keeps_waiting",
+         ["handler_block_stmt"]),
     ])
